@@ -95,6 +95,7 @@ def gen_geometry(rng, exact):
 def gen_values(rng, n, nvdim, style):
     tot = n[0] * n[1]
     out = []
+    tiny_field = rng.random() < 0.15       # 1e-300 (long literals) only in some fields
     for _ in range(tot):
         if style == "pyth":
             a, b = rng.choice(PYTH)
@@ -105,7 +106,7 @@ def gen_values(rng, n, nvdim, style):
             v = [F(round(rng.uniform(-5, 5), 2)) if False else F(float(round(rng.uniform(-5, 5), 2)))
                  for _ in range(nvdim)]
         elif style == "mags":
-            v = [mag_value(rng, 0.15) for _ in range(nvdim)]
+            v = [mag_value(rng, 0.15, tiny=tiny_field) for _ in range(nvdim)]
         elif style == "mags30":
             v = [mag_value(rng, 0.15, tiny=False) for _ in range(nvdim)]
         elif style == "big":
@@ -195,7 +196,8 @@ def gen_aux(rng, n, kind, odd_only=False):
     tot = an[0] * an[1]
     mags = rng.random() < (0.6 if kind == "filter" else 0.45)
     if mags:
-        vals = [mag_value(rng, 0.3 if kind == "filter" else 0.1, tiny=(kind != "light")) for _ in range(tot)]
+        vals = [mag_value(rng, 0.3 if kind == "filter" else 0.1, tiny=(kind == "filter" or (kind == "colour" and rng.random() < 0.1)))
+                for _ in range(tot)]
     elif kind == "filter":
         vals = [F(rng.choice([0, 0, 1, 1, 1, 2, -1, F(1, 8)])) for _ in range(tot)]
     else:
@@ -880,6 +882,10 @@ def run_case(c):
     plt.close("all")
     rec["oracle"] = sorted(set(rec["oracle"]))
     rec["tags"] = sorted(set(rec["tags"]))
+    if rec["tags"] and rec["oracle"] != ["invalid-cell-drawn"]:
+        # the known finding excuses exactly that clause; a record that violates anything else is
+        # reported untagged, so that the known entry can never swallow another clause
+        rec["tags"] = []
     flt_cls = "none" if c.get("filter") is None else ("same" if c["filter"]["n"] == fd["n"] else "other")
     mcls = "default" if mu is None else f"{mu[0]}{mu[1] if mu[0] == 'si' else ''}"
     mp_cls = "default" if fd["mapping"] is None else "/".join(f"{k}>{v}" for k, v in fd["mapping"])
